@@ -180,7 +180,7 @@ fn leaf_variants(id: u64, rich: bool) -> Vec<T> {
     use bs::*;
     match id {
         UINT => if rich { vec![T::U(UINT, 5), T::U(UINT, 0x1_0000)] } else { vec![T::U(UINT, 5)] },
-        INT => if rich { vec![T::I(INT, -3), T::I(INT, 40000)] } else { vec![T::I(INT, -3)] },
+        INT => if rich { vec![T::I(INT, -3), T::I(INT, 40000), T::I(INT, 128)] } else { vec![T::I(INT, -3), T::I(INT, 128)] },
         STR => vec![T::S(STR, "a".into())],
         BIN => if rich { vec![T::B(BIN, vec![1, 2]), T::B(BIN, vec![])] } else { vec![T::B(BIN, vec![1, 2])] },
         FLT => vec![T::F(FLT, 1.5)],
